@@ -294,4 +294,33 @@ RNGO = '%s && %s && %s <= %s' % (VALID('j1', 'other_n'), VALID('j2', 'other_n'),
 itm('replace_it2_ii', 'replace( const_iterator first, const_iterator last, iterator first2, iterator last2)', 'r', [(Z, 'i1'), (Z, 'i2'), (F, 'other'), (Z, 'j1'), (Z, 'j2')],
     'FS& cv_r = o->replace( CV_IT(o, i1), CV_IT(o, i2), CV_IT(&other, j1), CV_IT(&other, j2)); return &cv_r == o;',
     _rep(P('i1'), CNT2, '(%s - %s)' % (PO('j2'), PO('j1')), 'SRC(other,%s + J)' % PO('j1'), dom=RNG + ' && ' + RNGO), VALID('i1') + ' && ' + VALID('i2') + ' && ' + RNGO)
+
+# ---- cross-capacity members (template< size_t S>, textually instantiated with S := CV_S, see T-INST-S): the other operand is a
+# FixedString of the second capacity S2 of the proof instance ('G' argument: ghosts str_n <= S2, str_0..); the specification is
+# the one of the std::string overload (same names), evaluated with source width S2
+import copy
+G = 'G'
+CROSS_FROM = ['insert_S', 'insert_Spc', 'append_S', 'append_Spc', 'pluseq_S', 'replace_pcS', 'replace_pcSpc', 'assign_S', 'opassign_S',
+              'compare_S', 'compare_pcS', 'compare_pcSpc', 'starts_with_S', 'ends_with_S', 'contains_S', 'ctor_S']
+for _id in CROSS_FROM:
+    _src = next(m for m in METHODS + OBS if m.id == _id)
+    _m = copy.copy(_src)
+    _m.id = _id[:-1] + 'G' if _id.endswith('S') else _id.replace('S', 'G', 1) if _id.startswith('ctor') else _id.replace('Spc', 'Gpc')
+    _m.args = [(G if k == 'S' else k, n) for k, n in _src.args]
+    _m.cross = True
+    _m.kf_as = _src.id
+    _m.disp = _src.call.replace(' str', ' const FixedString< S2>& str') if not _src.ctor else 'FixedString( const FixedString< S2>&)'
+    _m.only_diff = _id in ('opassign_S', 'ctor_S')   # with S2 == L these are the (defaulted) copy operations
+    if _id == 'opassign_S':
+        _m.call = 'cv_op_assign( str)'
+    if _id == 'ctor_S':
+        _m.raw = _src.raw.replace('FS cv_t( str);', 'FS cv_t( str, 0);')
+    OBS.append(_m)
+for _id, _neg in (('eq_G', ''), ('ne_G', '!')):
+    _m = M(_id, 'operator %s( const FixedString< L>&, const FixedString< S2>&)' % ('!=' if _neg else '=='), 'B', [(G, 'other')], False,
+           spec=(lambda neg: lambda L, K: dict(dom='1', result=['(R != 0) == %s(g_len == other_n' % neg + ''.join(' && (%d >= g_len || g%d == SRC(other,%d))' % (j, j, j) for j in range(L)) + ')']))(_neg))
+    _m.raw = 'return celma::common::cv_op_%s< {L}>( *static_cast<const FS*>(self), other);' % _id[:2]
+    _m.cross = True
+    _m.only_diff = False
+    OBS.append(_m)
 OBSERVERS[:] = OBS
